@@ -105,9 +105,6 @@ def gen_configs(rng, count):
         c["file"] = src in ("file", "file_and_locmeta")
         c["loc_cli"] = "PENINSULA" if src in ("loc_cli", "both_loc") else None
         c["loc_meta"] = {"loc_meta": "CANARIAS", "both_loc": "BALEARES", "loc_meta_bad": "MARTE", "file_and_locmeta": "CANARIAS"}.get(src)
-        # a factors file conflicts (clap) with --red1/--red2 and -l
-        if c["file"]:
-            c["red1_cli"] = c["red2_cli"] = None
         cfgs.append(c)
     return cfgs
 
